@@ -274,7 +274,7 @@ def run_C03(ctx):
                        "Each is built directly in 3 layouts, and appended faults also inside an INCLUDEd file (file, line, include trace) and inside a pasted MACRO body. "
                        "Non-trivial = distinct (base, fault kind, site).")
     ctx.assumptions += ["faults whose detection is lexical (TYPE / Headers / Query / ENUM without a body) are owned by C12/C01", "a second OperationId with the same id is reported with the OperationId-uniqueness message"]
-    r = ctx.tlc("MC_C03", timeout=900)
+    r = ctx.tlc("MC_C03", cfg="MC_C03.cfg" if ctx.quick else "MC_C03_thorough.cfg", timeout=1800)
     res = ctx.vh("c03-replay", r.out, env={"VERIF_SEED": str(ctx.seed)})
     ctx.absorb(res, "G:c03-replay")
     ctx.cov["exhaustive"] = True
@@ -288,7 +288,7 @@ def run_C15(ctx):
                        "M: same verdict and same entries as maps in the model; G: the real catalog of every order equals the real catalog of the base order up to the order of entries in "
                        "sections / tag lists, and equals the model's prediction for that order. Non-trivial = distinct orders.")
     ctx.assumptions += ["blocks are independent top-level blocks; no implicit-context MACRO bodies (the property excludes them)"]
-    r = ctx.tlc("MC_C15", timeout=1800)
+    r = ctx.tlc("MC_C15", cfg="MC_C15.cfg" if ctx.quick else "MC_C15_thorough.cfg", timeout=3000)
     res = ctx.vh("c15-replay", r.out)
     ctx.absorb(res, "G:c15-replay")
     ctx.cov["exhaustive"] = True
@@ -300,9 +300,9 @@ def run_C19(ctx):
     ctx.cov["rule"] = ("G: every set of one or two banned kinds (31 + 465) x 3 projects that together contain every directive kind directly, inside an INCLUDEd file, inside pasted MACRO bodies "
                        "and inside a MACRO that is never pasted: 1 488 cases. A banned kind that occurs must give the not-allowed error on the first such directive in scanning order (file, line, "
                        "include trace); otherwise the build must equal the build without the option (verdict, catalog bytes). Non-trivial = distinct (project, banned set).")
-    r = ctx.tlc("MC_C19", timeout=900)
+    r = ctx.tlc("MC_C19", cfg="MC_C19.cfg" if ctx.quick else "MC_C19_thorough.cfg", timeout=3000)
     res = ctx.vh("c19-replay", r.out)
-    if res.get("extra", {}).get("kinds_banned") != 31:
+    if res.get("extra", {}).get("kinds_banned") != 31:  # every kind must have been banned at least once
         raise MachineryError("C19: %s of 31 kinds were banned" % res.get("extra"))
     ctx.absorb(res, "G:c19-replay")
     ctx.cov["exhaustive"] = True
